@@ -533,6 +533,9 @@ func GenProgram(t *rapid.T, prof *Profile, doc Doc) *Program {
 				fields = append(fields, F("od_"+s.ID, Opt("ordisabled", StepRef(s.ID, "outputs", "success"))))
 			case 3:
 				fields = append(fields, F("oo_"+s.ID, OneOf("kind", F("ran", StepRef(s.ID, "outputs", "success")), F("off", StepRef(s.ID, "disabled", "output")))))
+			case 5:
+				// waiting for an output the step may well not end in: absent exactly then
+				fields = append(fields, F("we_"+s.ID, Opt("wait-optional", StepRef(s.ID, "outputs", "error", "reason"))))
 			case 4:
 				fields = append(fields, F("nest_"+s.ID, &Expr{K: "list", Items: []*Expr{
 					Obj(F("item", OneOf("kind", F("ok", StepRef(s.ID, "outputs", "success")), F("err", StepRef(s.ID, "outputs", "error")), F("off", StepRef(s.ID, "disabled", "output")))),
